@@ -43,6 +43,9 @@ type c08Scen struct {
 	WS   bool  `json:"ws,omitempty"`
 	Comp bool  `json:"comp,omitempty"` // a component instead of a client
 	TLS  bool  `json:"tls,omitempty"`  // the client's session runs over STARTTLS
+	// Acks > 0 (stress, SM): while the senders run the server sends that many <a h='0'/>: nothing is acknowledged, and
+	// every answer makes the client retransmit what it holds - concurrently with the senders
+	Acks int `json:"acks,omitempty"`
 }
 
 func goid() string {
@@ -137,6 +140,9 @@ func c08RunOne(w *tr.Writer, tid int, raw json.RawMessage, c *common) error {
 		s, i := 0, 0
 		if ok {
 			fmt.Sscanf(id, "g%d-%d", &s, &i)
+		} else if sc.Acks > 0 && id == "" && (e.Local == "r" || e.Local == "presence") {
+			// a retransmission round: the initial presence (held like any stanza) and the request that ends the round
+			return
 		}
 		rec := tr.Rec{"ev": "wire", "s": s, "i": i, "whole": ok && bytes.Equal(want, e.Raw), "x": ""}
 		if !rec["whole"].(bool) {
@@ -177,7 +183,24 @@ func c08RunOne(w *tr.Writer, tid int, raw json.RawMessage, c *common) error {
 			}(s)
 		}
 		close(start)
+		if sc.SM && sc.Acks > 0 && !sc.Comp {
+			wg.Add(1)
+			go func() {
+				defer wg.Done()
+				for k := 0; k < sc.Acks; k++ {
+					time.Sleep(time.Duration(200+rng.Intn(3000)) * time.Microsecond)
+					if env.conn.Write("<a xmlns='urn:xmpp:sm:3' h='0'/>") != nil {
+						return
+					}
+				}
+			}()
+		}
 		wg.Wait()
+		if sc.SM && sc.Acks > 0 {
+			// the retransmission that the last answer started
+			env.drained(3 * time.Second)
+			time.Sleep(150 * time.Millisecond)
+		}
 	} else {
 		// gated replay of the TLC schedule
 		type cmd struct{ sd c08Send }
@@ -289,7 +312,7 @@ func c08RunOne(w *tr.Writer, tid int, raw json.RawMessage, c *common) error {
 			qids = append(qids, e.Id)
 		}
 	}
-	w.Emit(tr.Rec{"ev": "quiet", "qtags": qtags, "qids": qids, "stall": stalled, "faulted": faulted})
+	w.Emit(tr.Rec{"ev": "quiet", "qtags": qtags, "qids": qids, "stall": stalled, "faulted": faulted, "acks": sc.SM && sc.Acks > 0})
 	cancel()
 	env.teardown()
 	w.Emit(tr.Rec{"ev": "fin"})
@@ -347,6 +370,10 @@ func runC08(args []string) error {
 		if rng.Intn(4) == 0 {
 			sc.FailAt = 1 + rng.Intn(sc.G*sc.M)
 			sc.Partial = rng.Intn(2) == 0
+		}
+		if i%5 == 4 && !sc.Comp && sc.FailAt == 0 {
+			// stream management, and the server answers (acknowledging nothing) while the senders are at work
+			sc.SM, sc.Acks = true, 1+rng.Intn(6)
 		}
 		if i%5 == 2 && !sc.Comp {
 			// over STARTTLS, with payloads larger than one TLS record (16 kB): a sender that hands its stanza to the
